@@ -453,6 +453,7 @@ func (app *App) getAppHash() (version int64, hash []byte) {
 
 func (app *App) handlePanic() {
 	if r := recover(); r != nil {
+		verifNotePanic(r)
 		fmt.Println("panic in controller: ", r)
 		debug.PrintStack()
 		app.Close()
